@@ -52,15 +52,20 @@ func (c *Ctx) AfterRequire(from ssa.Instruction, cond *Cond) (bool, string, int)
 			defer func() { c.reqDepth-- }()
 			total := 0
 			for _, site := range sites {
+				// established inside the helper on every way out of it: nothing is left to show behind the call;
+				// otherwise the rest of the way is the caller's, from the call onward
 				ok, why, n := local(c.P.OriginsOf(site.Parent()).Enter(fn, site))
 				total += n
-				if !ok {
-					return false, why, total
+				if ok && n > 0 {
+					continue
 				}
-				ok, why, m := c.AfterRequire(site, cond)
+				ok2, why2, m := c.AfterRequire(site, cond)
 				total += m
-				if !ok {
-					return false, why, total
+				if !ok2 {
+					if why != "" {
+						why2 = why + " ; and behind the call: " + why2
+					}
+					return false, why2, total
 				}
 			}
 			return true, "", total
